@@ -136,6 +136,7 @@ type Event struct {
 	Ptr  Val
 	Looked []string // maps with a successful lookup on every path reaching this event
 	Func string
+	NAtoms int // number of path atoms in force when the event happened (Paths mode)
 }
 
 // State is one abstract machine state.
